@@ -52,12 +52,15 @@ func parseRA(rd, pf string) raArgs {
 	return a
 }
 
-func (g gen) prefix() string {
+func (g gen) prefix() string { return g.prefixP(85) }
+
+// prefixP: a prefix whose host bits are cleared with probability pValid percent (else the marshalling refuses it)
+func (g gen) prefixP(pValid int) string {
 	r := g.rng
 	plen := r.Pick(64, 64, 64, 48, 56, 0, 128, 1, 7, 8, 9, 127)
 	p := r.Bytes(16)
 	p[0] = 0x20
-	if r.Chance(85) { // clear the host bits, else marshal refuses
+	if r.Chance(pValid) { // clear the host bits, else marshal refuses
 		for i := 0; i < 128; i++ {
 			if i >= plen {
 				p[i/8] &^= 0x80 >> (i % 8)
@@ -676,12 +679,17 @@ func generatePaths(r *lib.Run, g gen, do func(kind string, c nicCfg, args ...str
 			dm, di = g.mac(), g.ip6()
 		}
 		npf := rng.Pick(1, 1, 1, 2, 3, 0)
-		if rng.Chance(2) {
-			npf = 50 // does not fit the buffer
+		big := rng.Chance(3)
+		if big {
+			npf = rng.Pick(44, 45, 46, 50) // around / beyond what fits the 1522-byte buffer: all prefixes valid
 		}
 		pf := []string{}
 		for j := 0; j < npf; j++ {
-			pf = append(pf, g.prefix())
+			if big {
+				pf = append(pf, g.prefixP(100))
+			} else {
+				pf = append(pf, g.prefix())
+			}
 		}
 		pft := "-"
 		if len(pf) > 0 {
